@@ -177,7 +177,7 @@ pub fn history_session(rep: &mut Report, seed: u64, verbose: bool) -> bool {
     let mut rng = Rng::new(seed);
     let mut sess = Sess::new(None);
     sess.full_every = 4096;
-    let judge = Judge { outcome: true, regs: true, ccr: false, pc: false, mem: true, cost: false, panics: false };
+    let judge = Judge { outcome: true, regs: true, ccr: false, pc: false, mem: true, cost: false, panics: false, only: Some(super::common::is_mov) };
     let replay = format!("check=C09 kind=history seed={}", seed);
     // hot addresses: region boundaries +-4 and a few interior points
     let mut hot: Vec<u32> = vec![];
